@@ -316,7 +316,15 @@ func c19Replication(c *h.Ctx, id string, r *rand.Rand) {
 	if r.Intn(3) != 0 {
 		nOps = 250 + r.Intn(150)
 	}
+	// one case in four has a publisher with a large table (130-300 distinct prefixes, mostly
+	// announcements): thresholds that depend on the table size only move then
+	big := r.Intn(4) == 0
 	names := make([]enc.Name, 12)
+	if big {
+		names = make([]enc.Name, 130+r.Intn(170))
+		nOps = 300 + r.Intn(150)
+		c.Count("replication_cases_with_a_large_table", 1)
+	}
 	for i := range names {
 		names[i], _ = enc.NameFromStr(fmt.Sprintf("/p/%d", i))
 	}
@@ -381,12 +389,20 @@ func c19Replication(c *h.Ctx, id string, r *rand.Rand) {
 		}
 		// wait until the peer's known sequence reaches the latest (the fetch loop is the router's own)
 		deadline := time.Now().Add(20 * time.Second)
+		var maxKnown uint64
 		for {
 			var known, latest uint64
 			peer.r.VerifLocked(func() {
 				pr := peer.r.VerifPfx().GetRouter(pub.name)
 				known, latest = pr.Known, pr.Latest
 			})
+			if known < maxKnown {
+				// monotonicity: what the peer has applied of the publisher's log never shrinks
+				c.Violation("C19:replica-sequence-went-backwards", id, fmt.Sprintf("%s: the peer had applied the publisher's log up to sequence %d and is now back at %d (latest %d)", when, maxKnown, known, latest),
+					map[string]any{"ops_since_last_sync": sinceSync, "sync_gaps": gaps, "publisher_table_size": len(names), "events_tail": s.events[max(0, len(s.events)-30):]})
+				return false
+			}
+			maxKnown = known
 			if known >= latest {
 				break
 			}
@@ -489,6 +505,9 @@ func c19Replication(c *h.Ctx, id string, r *rand.Rand) {
 		}
 		nm := names[r.Intn(len(names))]
 		ann := r.Intn(3) != 0
+		if big {
+			ann = r.Intn(10) != 0
+		}
 		var before, after uint64
 		pub.r.VerifLocked(func() {
 			before = pub.r.VerifPfx().GetRouter(pub.name).Latest
